@@ -195,6 +195,18 @@ def run(program, rep, tier):
     for o in rep.obs[n0:]:
         o.rule = 'C20.cross-talk'
     # each listener exactly once: registration is idempotent (C03.idempotent)
+    from rules import evrules
+    rep.borrow(evrules.delivery_sites, program, rep, 'C03', {'deliver'},
+               keep=lambda o: o.rule == 'C03.deliver',
+               rename=lambda r: 'C20.once',
+               why='not every listener of the transform is notified')
+    from rules import c04
+    rep.borrow(c04.check_release, program, rep,
+               keep=lambda o: o.rule.startswith('C04.'),
+               rename=lambda r: 'C20.released-' + r.split('.')[1],
+               why='notifications held back while dispatching was disabled '
+               'do not arrive once each, in assignment order (the last value '
+               'a listener is told is not the one the property reads)')
     rep.borrow(c03.check_tables, program, rep,
                keep=lambda o: o.rule == 'C03.idempotent',
                rename=lambda r: 'C20.once',
